@@ -441,16 +441,21 @@ async fn write_provision_state(
         );
     }
 
-    let status_file: PathBuf = provision_dir.join(STATUS_TAG_TMP_FILE_NAME);
-    match std::fs::write(status_file, failed_state_message.as_bytes()) {
+    // every writer uses its own temp file, so that a concurrent writer can never truncate or rename it
+    static STATUS_TAG_TMP_SEQ: std::sync::atomic::AtomicU64 = std::sync::atomic::AtomicU64::new(0);
+    let status_file: PathBuf = provision_dir.join(format!(
+        "{}.{}.{}",
+        STATUS_TAG_TMP_FILE_NAME,
+        std::process::id(),
+        STATUS_TAG_TMP_SEQ.fetch_add(1, std::sync::atomic::Ordering::Relaxed)
+    ));
+    match std::fs::write(&status_file, failed_state_message.as_bytes()) {
         Ok(_) => {
-            match std::fs::rename(
-                provision_dir.join(STATUS_TAG_TMP_FILE_NAME),
-                provision_dir.join(STATUS_TAG_FILE_NAME),
-            ) {
+            match std::fs::rename(&status_file, provision_dir.join(STATUS_TAG_FILE_NAME)) {
                 Ok(_) => {}
                 Err(e) => {
                     logger::write_error(format!("Failed to rename status file with error: {e}"));
+                    _ = std::fs::remove_file(&status_file);
                 }
             }
         }
